@@ -398,6 +398,131 @@ def model_class_failures():
     return fails
 
 
+def x0_forms():
+    """Every documented form of the start value, incl. the boundary value 0 in all its spellings.
+    (label, constructor argument, start mean, coefficient of the start's own latent excitation or
+    None = "sigma_0" (steady state), extra latent keys relative to `name`)"""
+    import jax.numpy as jnp
+    import nifty.re as jft
+    return [
+        ("int0", 0, 0.0, 0.0, []), ("float0", 0.0, 0.0, 0.0, []), ("npfloat0", np.float64(0), 0.0, 0.0, []),
+        ("0d-array0", np.zeros(()), 0.0, 0.0, []), ("jnp0", jnp.zeros(()), 0.0, 0.0, []),
+        ("nonzero", 0.75, 0.75, 0.0, []), ("negative", -0.5, -0.5, 0.0, []),
+        ("tuple", (0.25, 0.5), 0.25, 0.5, ["_x0"]), ("tuple-mean0", (0.0, 2.0), 0.0, 2.0, ["_x0"]),
+        ("lazymodel", jft.NormalPrior(-0.25, 1.5, name="my_start"), -0.25, 1.5, ["=my_start"]),
+    ]
+
+
+def model_form_observations():
+    """WienerProcess / OrnsteinUhlenbeckProcess for every x0 form (and x0=None for OU): latent keys,
+    value at zero excitation, response matrix w.r.t. (start latent, xi).  Returns a list of dicts."""
+    import nifty.re as jft
+    dts = np.array([0.25, 1.0, 0.0625, 0.5625])
+    n = dts.size
+    sig = np.array([0.5, 2.0, 1.25, 0.75])
+    gam = np.array([0.5, 0.125, 1.0, 0.25])
+    obs = []
+    forms = x0_forms()
+    for proc in ("ou", "wiener"):
+        name = "oup" if proc == "ou" else "wp"
+        fl = list(forms) + ([("none", None, 0.0, None, ["_x0"])] if proc == "ou" else [])
+        for label, x0, mean, c0, extra in fl:
+            try:
+                if proc == "ou":
+                    gp = jft.OrnsteinUhlenbeckProcess(sig, gam, dts, name=name, x0=x0)
+                else:
+                    gp = jft.WienerProcess(x0, sig, dts, name=name)
+                keys = sorted(gp.domain.keys())
+                want_keys = sorted([name] + [(e[1:] if e.startswith("=") else name + e) for e in extra])
+                start_key = [k for k in keys if k != name]
+                zero = {k: np.zeros(np.shape(jft.zeros_like(gp.domain)[k])) for k in keys}
+                base = np.asarray(gp(zero), dtype=np.float64)
+                cols = []
+                if len(start_key) == 1:
+                    e = dict(zero)
+                    e[start_key[0]] = np.ones(())
+                    cols.append(np.asarray(gp(e)) - base)
+                else:
+                    cols.append(np.zeros(n + 1))
+                for k in range(n):
+                    e = dict(zero)
+                    v = np.zeros(n)
+                    v[k] = 1.0
+                    e[name] = v
+                    cols.append(np.asarray(gp(e)) - base)
+                obs.append({"proc": proc, "form": label, "keys": keys, "want_keys": want_keys, "base": base,
+                            "A": np.stack(cols, axis=-1), "mean": mean, "c0": (float(sig[0]) if c0 is None else c0),
+                            "sigma": sig, "gamma": gam, "dt": dts, "error": None})
+            except Exception as e:
+                obs.append({"proc": proc, "form": label, "error": repr(e)[:200]})
+    return obs
+
+
+def model_form_checks(obs):
+    """Coq terms: response rows of the model classes = model rows with the documented start coefficient;
+    value at zero excitation = the process function's noise-free path from the start mean."""
+    import jax.numpy as jnp
+    out = []
+    for o in obs:
+        tag = "%s-model-x0=%s" % (o["proc"], o["form"])
+        if o["error"] is not None:
+            out.append((tag, "false"))
+            continue
+        n = o["dt"].size
+        tol = q(TOL * scale_of(o["A"], o["base"]))
+        if o["proc"] == "ou":
+            e = np.asarray(jnp.exp(-jnp.asarray(o["gamma"]) * jnp.asarray(o["dt"])))
+            qq = np.asarray(jnp.sqrt(1.0 - jnp.asarray(e) ** 2))
+            out.append((tag + "-rows", "chk_ou_start_rows %s %s %s %s %s %s" % (tol, q(o["c0"]), ql(o["sigma"]), ql(e), ql(qq), qll(o["A"]))))
+            out.append((tag + "-mean", "chk_ou %s %s %s %s %s %s %s" % (tol, ql(np.zeros(n)), q(o["mean"]), ql(o["sigma"]), ql(e), ql(qq), ql(o["base"]))))
+        else:
+            s_ = np.asarray(jnp.sqrt(jnp.asarray(o["dt"])))
+            out.append((tag + "-rows", "chk_wiener_start_rows %s %s %s %s %s" % (tol, q(o["c0"]), ql(o["sigma"]), ql(s_), qll(o["A"]))))
+            out.append((tag + "-mean", "chk_wiener %s %s %s %s %s" % (ql(np.zeros(n)), q(o["mean"]), ql(o["sigma"]), ql(s_), ql(o["base"]))))
+        out.append((tag + "-keys", C.cbool(o["keys"] == o["want_keys"])))
+    return out
+
+
+def model_form_failures(obs):
+    """Direct statement: latent keys as documented, Var[x_0] and the whole covariance as documented."""
+    fails = []
+    for o in obs:
+        sig = {"fn": "OrnsteinUhlenbeckProcess" if o["proc"] == "ou" else "WienerProcess", "kind": "model-x0-form"}
+        inp = {"case": "model-form", "proc": o["proc"], "form": o["form"]}
+        if o["error"] is not None:
+            fails.append((sig, "%s(x0 form %s) raised %s" % (sig["fn"], o["form"], o["error"]), inp))
+            continue
+        if o["keys"] != o["want_keys"]:
+            fails.append((sig, "%s with x0 form `%s`: latent keys %s, documented %s" % (sig["fn"], o["form"], o["keys"], o["want_keys"]), inp))
+            continue
+        n = o["dt"].size
+        cov = o["A"] @ o["A"].T
+        if o["proc"] == "ou":
+            e = np.exp(-o["gamma"] * o["dt"])
+            P = [o["c0"] ** 2]
+            for k in range(n):
+                P.append(e[k] ** 2 * P[-1] + o["sigma"][k] ** 2 * (1 - e[k] ** 2))
+            phis = e
+        else:
+            P = [o["c0"] ** 2]
+            for k in range(n):
+                P.append(P[-1] + o["sigma"][k] ** 2 * o["dt"][k])
+            phis = np.ones(n)
+        ref = np.zeros((n + 1, n + 1))
+        for i in range(n + 1):
+            phi = 1.0
+            for j in range(i, n + 1):
+                if j > i:
+                    phi *= phis[j - 1]
+                ref[i, j] = ref[j, i] = phi * P[i]
+        if not np.allclose(cov, ref, rtol=0, atol=1e-10 * scale_of(ref)):
+            i, j = np.unravel_index(np.argmax(np.abs(cov - ref)), cov.shape)
+            fails.append((sig, "%s with x0 form `%s`: Cov(x_%d, x_%d) = %r, documented %r" % (sig["fn"], o["form"], i, j, float(cov[i, j]), float(ref[i, j])), inp))
+        elif abs(o["base"][0] - o["mean"]) > 1e-12:
+            fails.append((sig, "%s with x0 form `%s`: E[x_0] = %r, documented %r" % (sig["fn"], o["form"], float(o["base"][0]), o["mean"]), inp))
+    return fails
+
+
 # --------------------------------------------------------------------------------------------------
 # case generation
 # --------------------------------------------------------------------------------------------------
@@ -507,6 +632,10 @@ class C29(C.Check):
             for what, t in checks_for(c, o):
                 meta.append({"what": what, "case": c})
                 checks.append(t)
+        self.form_obs = model_form_observations()
+        for what, t in model_form_checks(self.form_obs):
+            meta.append({"what": what, "case": {"kind": "model-form", "n": 4, "par": {}}})
+            checks.append(t)
         bad = fasteval.eval_bools(self.prop, "corr", HEADER, checks, jobs=3)
         hints = []
         for i in bad[:6]:
@@ -534,6 +663,7 @@ class C29(C.Check):
 
     def oracle(self, ctx, res, hints, budget):
         n = 0
+        hints = [c for c in hints if c.get("kind") != "model-form"]
         order = [c for c in hints] + [c for c in self.cases if c not in hints]
         obs = {json.dumps(c, sort_keys=True): o for c, o in zip(self.cases, self.obs)}
         for c in order:
@@ -546,6 +676,9 @@ class C29(C.Check):
                 res.add_failing(sig, what, inp)
             if len(res.failing) >= 4:
                 break
+        if not res.failing:
+            for sig, what, inp in model_form_failures(getattr(self, "form_obs", None) or model_form_observations())[:2]:
+                res.add_failing(sig, what, inp)
         if not res.failing:
             for sig, what, inp in model_class_failures():
                 res.add_failing(sig, what, inp)
@@ -561,6 +694,9 @@ class C29(C.Check):
 
     def replay(self, ctx, rp):
         c = rp["input"].get("case")
+        if c == "model-form":
+            return any(f[2]["form"] == rp["input"]["form"] and f[2]["proc"] == rp["input"]["proc"]
+                       for f in model_form_failures(model_form_observations()))
         if isinstance(c, dict):
             return bool(direct_failures(c))
         return bool(model_class_failures())
